@@ -43,6 +43,29 @@ static std::string join(const std::vector<long long>& v)
 //        <keyups> <frames per keyup (full 320-sample blocks fed while active)> <extra samples> <nsrc> src... <ndst> dst...
 //        [optional: per key-up pairs <frames_k> <extra_k> overriding the common values]
 // reply: <final state> <exception 0/1> | bytes...
+// modapi: like modrun (consumer eager, audio prequeued) but the callsigns are changed through the public setters between key-ups:
+// modapi <seed> <frames> <extra> <nsrc> src... <ndst> dst... <K> then K times: <kind 0 none | 1 source(x) | 2 dest(x)> <len> chars...
+struct ApiStep { int kind; std::string call; };
+static std::vector<ApiStep> g_api;
+static std::string modrun(const Args& a);
+static std::string modapi(const Args& a)
+{
+    size_t ns = size_t(a.at(3));
+    size_t nd = size_t(a.at(4 + ns));
+    size_t j = 5 + ns + nd;
+    size_t K = size_t(a.at(j++));
+    g_api.clear();
+    for (size_t k = 0; k < K; ++k) {
+        ApiStep st; st.kind = int(a.at(j++)); size_t len = size_t(a.at(j++));
+        for (size_t i = 0; i < len; ++i) st.call.push_back(char(a.at(j++)));
+        g_api.push_back(st);
+    }
+    Args b{a.at(0), 0, 0, (long long)K, a.at(1), a.at(2)};
+    for (size_t i = 3; i < 5 + ns + nd; ++i) b.push_back(a[i]);
+    std::string r = modrun(b);
+    g_api.clear();
+    return r;
+}
 static std::string modrun(const Args& a)
 {
     unsigned seed = unsigned(a.at(0)); int cmode = int(a.at(1)), amode = int(a.at(2));
@@ -80,6 +103,10 @@ static std::string modrun(const Args& a)
         }
     };
     for (int k = 0; k < keyups; ++k) {
+        if (size_t(k) < g_api.size()) {
+            if (g_api[size_t(k)].kind == 1) mod.source(g_api[size_t(k)].call);
+            if (g_api[size_t(k)].kind == 2) mod.dest(g_api[size_t(k)].call);
+        }
         feed(int(rng() % 50));                  // audio while idle: discarded
         while (aq->size() != 0) std::this_thread::sleep_for(1ms);
         std::this_thread::sleep_for(3ms);       // the modulator thread has taken the last idle sample
@@ -114,7 +141,7 @@ int main()
         if (op.empty()) continue;
         Args a; long long x;
         while (is >> x) a.push_back(x);
-        std::string r = op == "modrun" ? modrun(a) : std::string("bad-op");
+        std::string r = op == "modrun" ? modrun(a) : op == "modapi" ? modapi(a) : std::string("bad-op");
         fputs(r.c_str(), stdout); fputc('\n', stdout); fflush(stdout);
     }
     return 0;
